@@ -114,7 +114,7 @@ def check(ctx: Ctx) -> None:
         ctx.sample({"cfg": res.cfg, "record": res.records[len(res.records) // 2]}, cap=4)
     # binding demonstration: a corrupted record must be rejected by the same comparison
     probe = Ctx.__new__(Ctx)
-    probe.__dict__.update({"violations": [], "findings": [], "known_hits": {}, "evaluations": 0, "distinct": set()})
+    probe.__dict__.update({"_per_key": {}, "violations": [], "findings": [], "known_hits": {}, "evaluations": 0, "distinct": set()})
     bad = dict(results[0].records[7])
     bad["pl"] = bad["pl"] + 1
     replay_group(probe, F, [bad], random.Random(0))
